@@ -443,6 +443,8 @@ func classifyValueAt(v ssa.Value, at *ssa.BasicBlock) retClass {
 		return rcU
 	case *ssa.MakeInterface:
 		return rcA
+	case *ssa.Alloc:
+		return rcA // the address of a local or a literal is never nil
 	case *ssa.Call:
 		if fn := x.Common().StaticCallee(); fn != nil {
 			switch fn.String() {
@@ -688,8 +690,18 @@ func (g *Graph) expandCallFrom(n *Node, site ssa.CallInstruction, ctx *Ctx, tail
 		}
 	}
 	if ctx.Depth-g.RootCtx.Depth >= g.opts.MaxDepth {
-		g.DepthCut = append(g.DepthCut, n)
-		return
+		// a function's own closures (a loop body or a step wrapped in a func literal that is
+		// called on the spot) are part of its body: they are expanded beyond the depth bound
+		own := ctx.Depth-g.RootCtx.Depth < g.opts.MaxDepth+3
+		for _, t := range exp {
+			if t.Closure == nil || t.Fn == nil || topParent(t.Fn) != topParent(ctx.Fn) {
+				own = false
+			}
+		}
+		if !own {
+			g.DepthCut = append(g.DepthCut, n)
+			return
+		}
 	}
 	// result correlation only for a single, definite callee
 	corr := -1
@@ -698,6 +710,14 @@ func (g *Graph) expandCallFrom(n *Node, site ssa.CallInstruction, ctx *Ctx, tail
 		// the caller may branch on another bool/error result of the callee (e.g. a `stop` flag
 		// returned next to the error): correlate on the one the block's If actually tests
 		if x, isIf := b.Instrs[len(b.Instrs)-1].(*ssa.If); isIf {
+			// a single pointer result tested against nil ("non-nil only on failure")
+			if call, isCall := site.(*ssa.Call); isCall && corr < 0 && exp[0].Fn.Signature.Results().Len() == 1 {
+				if _, isPtr := exp[0].Fn.Signature.Results().At(0).Type().Underlying().(*types.Pointer); isPtr {
+					if _, ok := nilTestOf(x.Cond, call); ok {
+						corr = 0
+					}
+				}
+			}
 			if call, isCall := site.(*ssa.Call); isCall && exp[0].Fn.Signature.Results().Len() > 1 {
 				res := exp[0].Fn.Signature.Results()
 				for _, r := range *call.Referrers() {
@@ -1308,4 +1328,11 @@ func genericName(s string) string {
 		}
 	}
 	return b.String()
+}
+
+func topParent(fn *ssa.Function) *ssa.Function {
+	for fn != nil && fn.Parent() != nil {
+		fn = fn.Parent()
+	}
+	return fn
 }
